@@ -376,6 +376,9 @@ fn run_job(j: &Job, rep: &mut Report) {
                 with_cap(if t % 2 == 0 { 7 } else { 1 }, || {
                     check(&[S::End(t), S::Pos, S::Read(CHUNK + 1)], rep);
                     check(&[S::Read(5), S::Cur(t), S::Read(1)], rep);
+                    // a seek issued right after a whole block (and after a whole chunk) was consumed
+                    check(&[S::Read(BLOCK), S::Start(t), S::Read(3)], rep);
+                    check(&[S::Read(CHUNK), S::Cur(t), S::Read(BLOCK + 1)], rep);
                 });
             }
         }
